@@ -312,4 +312,31 @@ def cliFinal (cfg : Cfg) (env : Env) (evs : List Ev) : Res :=
   | .error r => r
   | .ok st => finish cfg env st
 
+/-- `opt_args` with the `WCOLL` environment variable (`wcollEnv`: the file it names): it is read —
+    like `^file`, by `read_wcoll` — only when no option produced a working collective, and BEFORE the
+    exclusions and filters are applied.  (Correspondence only today: `exclusion_correct` speaks about
+    the target words of `-w`; the hosts of the file are C10's `file_hosts_spec`.) -/
+def cliFinalW (cfg : Cfg) (env : Env) (wcollEnv : Option Str) (evs : List Ev) : Res :=
+  match argsProcess cfg env (evs.flatMap evWords) {} with
+  | .error r => r
+  | .ok st =>
+    match st.wcoll, wcollEnv with
+    | none, some file =>
+      match env.files.lookup file with
+      | none => .fatal "wcoll file"
+      | some exprs =>
+        match readHl cfg exprs EL.new with
+        | .error r => r
+        | .ok hl => finish cfg env { st with wcoll := some hl }
+    | _, _ => finish cfg env st
+
+/-- without `WCOLL` this is `cliFinal` -/
+theorem cliFinalW_none (cfg : Cfg) (env : Env) (evs : List Ev) : cliFinalW cfg env none evs = cliFinal cfg env evs := by
+  unfold cliFinalW cliFinal
+  cases argsProcess cfg env (evs.flatMap evWords) {} with
+  | error r => rfl
+  | ok st =>
+    obtain ⟨w, x, r⟩ := st
+    cases w <;> rfl
+
 end PdshVerif.Opt.Exclude
